@@ -17,7 +17,7 @@ from .core import VERIF_ROOT
 
 PY = "/venv/bin/python"
 REPO = os.environ.get("VMON_REPO", "/repo")
-WATCHDOG = {"quick": 15 * 60, "thorough": 120 * 60}
+WATCHDOG = {"quick": 30 * 60, "thorough": 180 * 60}
 
 
 def load_known():
